@@ -61,7 +61,7 @@ func (p *pparser) expect(c byte) {
 }
 
 func isIdent(c byte) bool {
-	return c == '_' || c == '/' || unicode.IsLetter(rune(c)) || unicode.IsDigit(rune(c))
+	return c == '_' || c == '/' || c == '-' || unicode.IsLetter(rune(c)) || unicode.IsDigit(rune(c))
 }
 
 func (p *pparser) ident() string {
